@@ -115,7 +115,7 @@ def gen_wrap_consts(repo):
     out += "/-- `WrapConfig::from_opt` passes all three wrap symbols through a check that accepts exactly one grapheme of display width 1 -/\n"
     out += "def wrapSymbolWidthChecked : Bool := %s\n" % b(sym_checked)
     out += "/-- `truncate_str_impl` stops adding text after the first grapheme that did not fit -/\n"
-    out += "def truncStopsAfterCut : Bool := %s\n" % b(tstop)
+    out += "def wrapTruncStopsAfterCut : Bool := %s\n" % b(tstop)
     out += "\nend Generated\n"
     return out
 
